@@ -474,7 +474,9 @@ inline GFile gen_file(Src &s, const GOpts &o) {
       }
       std::string ind = s.chance(20) ? gen_blanks(s, 1, 2) : "";
       l.indented = !ind.empty();
-      l.text = ind + e.key + (s.chance(20) ? gen_blanks(s, 1, 2, f.cls == DC_BLANK ? dblank : " \t") : "");
+      // (a bare key followed by two or more blanks is a MISSING_DELIMITER error under a non-blank delimiter set;
+      // one blank is accepted - the extension stays on the accepted side)
+      l.text = ind + e.key + (s.chance(20) ? gen_blanks(s, 1, f.cls == DC_NONBLANK ? 1 : 2, f.cls == DC_BLANK ? dblank : " \t") : "");
       e.raw_value = "";
       e.first_line = e.last_line = nlines + 1;
       e.trail.push_back(std::nullopt);
